@@ -68,7 +68,7 @@ def post_sequences(maxlen):
             yield s
 
 
-def run_one(script, clean, offset, nwatch, post):
+def run_one(script, clean, offset, nwatch, post, reentrant=''):
     """returns dict(viol, obs, log, steps, total) ; offset is a byte offset into the server stream"""
     viol = []
     kind, body, mode = script
@@ -87,6 +87,9 @@ def run_one(script, clean, offset, nwatch, post):
             # user commands were queued right behind PROTOCOLINFO, so Tor answers them second
             replies = AUTH_STREAM[:1] + [SHAPES['M1']] * body + AUTH_STREAM[1:]
         pre_watch = [ctl.watch() for _ in range(nwatch)]
+        if 'W' in reentrant:
+            # a disconnect-notification handler that immediately submits a command and asks again
+            pre_watch.append(ctl.watch(on_fire=lambda: (ctl.submit('P'), ctl.watch())))
         stream = [ctlcodec.encode_reply(c, p) for c, p in replies]
         total = sum(len(x) for x in stream)
         completed = [False] * len(ctl.subs)
@@ -119,11 +122,16 @@ def run_one(script, clean, offset, nwatch, post):
                         break
                     ctl.deliver(part)
                 break
+        n_before = len(ctl.subs)
+        if 'E' in reentrant:
+            # a retry handler: the errback of every outstanding command submits a new command at once
+            for i, s in enumerate(list(ctl.subs)):
+                if not (i < len(completed) and completed[i]):
+                    s.on_result.append(lambda: ctl.submit('K'))
         if ctl.wire.lost_seq is not None:
             viol.append(('connection-dropped', 'protocol-raised', '%r' % (w.errors()[:1],)))
         else:
             ctl.lose(clean)
-        n_before = len(ctl.subs)
         post_subs = []
         post_watch = []
         for op in post:
@@ -134,7 +142,7 @@ def run_one(script, clean, offset, nwatch, post):
         # ---- oracle
         for i, s in enumerate(ctl.subs):
             n = len(s.rec.fires)
-            where = 'post-loss-submission#%d' % (i - n_before + 1) if i >= n_before else \
+            where = ('%spost-loss-submission#%d' % ('reentrant-' if reentrant else '', i - n_before + 1)) if i >= n_before else \
                 ('in-flight-or-queued' if not (i < len(completed) and completed[i]) else 'answered')
             if s.raised is not None:
                 viol.append(('submit-raised', '%s/%s' % (type(s.raised).__name__, where),
@@ -154,8 +162,9 @@ def run_one(script, clean, offset, nwatch, post):
                     if not (k == 'err' and isinstance(v.value, TorDisconnectError)):
                         viol.append(('not-disconnect-error', where,
                                      'command #%d got %r' % (i, s.rec.summary())))
-        for i, r in enumerate(pre_watch + post_watch):
-            where = 'before-loss' if i < len(pre_watch) else 'after-loss'
+        extra_watch = [x for x in ctl.watchers if x not in pre_watch and x not in post_watch]
+        for i, r in enumerate(pre_watch + post_watch + extra_watch):
+            where = 'before-loss' if i < len(pre_watch) else ('after-loss' if i < len(pre_watch) + len(post_watch) else 'during-loss')
             n = len(r.fires)
             if n != 1:
                 viol.append(('watcher-fired-%d-times' % n, where, 'when_disconnected() %s #%d' % (where, i)))
@@ -182,22 +191,24 @@ def run_task(param, acc):
         maxpost -= 1
     posts = list(post_sequences(maxpost))
     total = run_one(script, clean, 0, 0, ())['total']
+    combos = [(nw, post, '') for nw in (0, 1, 2) for post in posts]
+    combos += [(nw, post, re) for re in ('E', 'W', 'EW') for nw in (0, 1) for post in posts if len(post) <= 2]
     for offset in range(0, total + 1):
-        for nwatch in (0, 1, 2):
-            for post in posts:
-                r = run_one(script, clean, offset, nwatch, post)
-                key = (script, clean, offset, nwatch, post)
+        for nwatch, post, reentrant in combos:
+            if True:
+                r = run_one(script, clean, offset, nwatch, post, reentrant)
+                key = (script, clean, offset, nwatch, post, reentrant)
                 oc = tuple(sorted(set(v[0] for v in r['viol']))) or ('ok',)
-                nontriv = (0 < offset < total) or len(post) > 0
+                nontriv = (0 < offset < total) or len(post) > 0 or bool(reentrant)
                 acc.execution(key=key, outcome='/'.join(oc), nontrivial=nontriv, steps=r['steps'])
                 acc.state(h64(r['obs']))
                 if acc.want_recheck(0.002):
-                    r2 = run_one(script, clean, offset, nwatch, post)
+                    r2 = run_one(script, clean, offset, nwatch, post, reentrant)
                     acc.recheck((r['obs'], r['viol']), (r2['obs'], r2['viol']))
                 for clause, feat, detail in r['viol']:
                     acc.violation('%s/%s' % (clause, feat), detail,
-                                  dict(script=script, clean=clean, offset=offset, nwatch=nwatch, post=post),
-                                  cost=len(post) * 100 + nwatch * 10 + len(script[1]) if script[0] == 'cmds' else 5000)
+                                  dict(script=script, clean=clean, offset=offset, nwatch=nwatch, post=post, reentrant=reentrant),
+                                  cost=(len(post) * 100 + nwatch * 10 + len(reentrant) * 1000 + (len(script[1]) if script[0] == 'cmds' else 5000)))
     acc.sample(dict(script=script, clean=clean, offsets='0..%d' % total, example_log=r['log'][-8:]), limit=1)
 
 
@@ -206,7 +217,7 @@ def replay(p):
     body = sc[1]
     if sc[0] == 'cmds':
         body = tuple(tuple(x) for x in body)
-    r = run_one((sc[0], body, sc[2]), p['clean'], p['offset'], p['nwatch'], tuple(p['post']))
+    r = run_one((sc[0], body, sc[2]), p['clean'], p['offset'], p['nwatch'], tuple(p['post']), p.get('reentrant', ''))
     return dict(violations=[dict(signature='%s/%s' % (c, f), what=d) for c, f, d in r['viol']],
                 log=r['log'] + ['outcomes: %r' % (r['obs'][1],)])
 
